@@ -72,6 +72,9 @@ type Opts struct {
 	BigRows      int  // upper bound of bulk rows (0 = no bulk inserts)
 	PageSizes    []int
 	OnlyRowid    bool
+	// WideWR: now and then one more table - WITHOUT ROWID, 66-75 columns, a
+	// key column beyond the 64th
+	WideWR bool
 }
 
 func genColValue(t *rapid.T, u int) val.V {
@@ -267,6 +270,28 @@ func Gen(t *rapid.T, o Opts) Spec {
 			}
 			s.History = append(s.History, st)
 		}
+	}
+	if o.WideWR && !s.TriggerNames && !used["widewr"] && rapid.IntRange(0, 11).Draw(t, "widewr") == 0 {
+		n := rapid.IntRange(66, 75).Draw(t, "widecols")
+		k := rapid.IntRange(64, n-2).Draw(t, "widekey")
+		ts := TableSpec{Def: sqlgen.Table{Ident: sqlgen.Ident{Name: "widewr", SQL: "widewr"}, WithoutRowid: true}}
+		for i := 0; i < n; i++ {
+			c := fmt.Sprintf("c%d", i)
+			ts.Def.Cols = append(ts.Def.Cols, sqlgen.Col{Ident: sqlgen.Ident{Name: c, SQL: c}})
+		}
+		pk := fmt.Sprintf("PRIMARY KEY (c%d)", k)
+		if rapid.Bool().Draw(t, "widekey2") {
+			pk = fmt.Sprintf("PRIMARY KEY (c%d, c2)", k)
+		}
+		ts.Def.Cons = []string{pk}
+		for r := 0; r < 3; r++ {
+			var row RowSpec
+			for i := 0; i < n; i++ {
+				row.Vals = append(row.Vals, val.Text(fmt.Sprintf("r%d-c%d", r, i)))
+			}
+			ts.Rows = append(ts.Rows, row)
+		}
+		s.Tables = append(s.Tables, ts)
 	}
 	return s
 }
